@@ -365,7 +365,9 @@ CHECK = {
             "exact and noisy targets; aligned / identity / permuted / permuted-with-unmatched-points correspondences; isotropic "
             "preconditioning scale 1e-3..1e3 on both sets or none; Cartesian/homogeneous, float/double (eight point types); "
             "malformed stream (size mismatch, index out of range). non-trivial = at least 3 pairs and R differs from I by > 1e-3",
-    "trusted": ["hand-written model coq/KabschModel.v tied by differential execution (this run)",
+    "trusted": ["hand-written model coq/KabschModel.v, tied to the source syntactically (translate/tr_C04_kabsch.py -> coq/gen/SrcKabsch.v, tie lemmas "
+                "coq/SrcTieC04.v, double instantiations) and by differential execution (this run, all eight point types)",
+                "translate/tr_C04_kabsch.py, clang's JSON AST, coq/SrcMat.v (the reading of fixed-size Eigen expressions, see the manifest note)",
                 "Eigen::JacobiSVD is an oracle with a contract (premise of the theorems); realised for execution by an unverified Gallina "
                 "one-sided Jacobi whose contract residual is measured on every call",
                 "extraction (ExtrOcamlBasic), ocaml/numf.ml, ocaml/drv_C04.ml", "harness/C04.cpp, python oracle in checks/C04.py",
@@ -376,7 +378,20 @@ CHECK = {
                     "cross covariance (conditioning of the polar factor); all-collinear sets are outside the property"],
     "run_timeout": 900,
     "manifest": {
-        "text": "Coq theorems about a model of both estimate_ overloads and the four find overloads with JacobiSVD as a contract-bound "
+        "text": "SYNTACTIC TIE: translate/tr_C04_kabsch.py regenerates, on every run, Gallina terms (coq/gen/SrcKabsch.v) from the clang "
+                "AST of the INSTANTIATED members of FindRigidTransformationBySVD<P> for P = Vector2d, Vector3d, HomogeneousCoordinates2d, "
+                "HomogeneousCoordinates3d: both private estimate_ overloads (aligned sets; with a correspondence vector), the four public "
+                "find overloads (the two on PreconditionedPointSet with their getters and the un-scaling of the translation block) and "
+                "romea::core::mean; loops are folds (index loops over seq with nth look-ups into the point lists, state = tuple of the "
+                "accumulated components), fixed-size Eigen expressions are expanded component-wise (outer product, block, col, transpose, "
+                "Identity, determinant), Eigen::JacobiSVD is an oracle argument. coq/SrcTieC04.v proves, for EVERY numeric dictionary "
+                "satisfying two literal laws (`0` = nzero, x * (-1) = -x; the reals satisfy them) and every SVD oracle, that the generated "
+                "estimate_ terms equal the model's estimate_pairs on the listed / aligned pairs and the generated find terms equal the "
+                "model's find functions (C04_source_tie_estimate, C04_source_tie_find_plain, C04_source_tie_find_preconditioned: 24 "
+                "generated functions), and the optimality theorem is restated directly about the generated terms "
+                "(C04_source_estimate_corr_is_optimal_proper_rotation, ..._aligned_..., "
+                "C04_source_find_preconditioned_is_optimal_for_the_original_pairs). "
+                "The theorems about the model: with JacobiSVD as a contract-bound "
                 "oracle: R^T R = I, det R = +1 (with the determinant correction), least-squares optimality among orthogonal matrices and, "
                 "in 2D and 3D, among PROPER rotations on noisy data (the flipped matrix V diag(1,..,-1) U^T is optimal when det(V U^T) < 0, "
                 "whatever the last singular value); the model's list sums (means, cross covariance, assembled matrix) are identified "
@@ -386,10 +401,22 @@ CHECK = {
                 "not all collinear (3D) / coincident (2D) the returned matrix is exactly (R0, tau0); the four find overloads reduce to "
                 "estimate_pairs and, with the same preconditioning scale on both sets, the result is again optimal on the original "
                 "pairs and equal to (R0, tau0) on exact data; invariance under permutation of "
-                "the correspondences; the refuted statement for the original code (reflection on a coplanar set). Tied by running the "
+                "the correspondences; the refuted statement for the original code (reflection on a coplanar set). Also tied by running the "
                 "extracted model against the real class for all eight point types.",
-        "note": "Trusted: Coq kernel, real-number axioms, hand-written model (tied only by differential execution), extraction, float "
-                "dictionaries, harness, oracle, numpy reference. Eigen's SVD is not verified: it appears as a hypothesis.",
-        "technique": "Coq proof (linear algebra over R) + extracted-model correspondence run + independent Kabsch/Umeyama oracle",
+        "note": "SYNTACTIC TIE: trusted in the tie are clang's AST, the translator's reading of Eigen (component-wise fixed-size "
+                "expressions; a matrix product component is the left-to-right sum from zero — the model's nominal order, Eigen's own "
+                "summation order and its LU-based run-time-sized determinant round differently, which only the correspondence run sees; "
+                "operator op= on a block evaluates its right-hand side first; HomogeneousCoordinatesK<double> is its Eigen base vector; "
+                "JacobiSVD(M, ComputeThinU | ComputeThinV) yields square U, V of the size of M), and coq/SrcMat.v (vcomp, mcomp, eig_det = "
+                "cofactor formula, the SVD result projections). Index out of range (undefined behaviour in C++) is outside the tie: the "
+                "theorems carry the model's range / equal-size guards. The float instantiations are not translated (the double ones "
+                "are; the harness runs both). PreconditionedPointSet::compute is not translated: the tie of the preconditioned overloads "
+                "takes the stored points and entry (0,0) of the target's matrix as given by the model's precondition / precond_matrix00 "
+                "(tied to the class by the correspondence run). Also trusted: Coq kernel, real-number axioms, extraction, float "
+                "dictionaries, harness, oracle, numpy reference. Eigen's SVD is not verified: it appears as a hypothesis (run-time "
+                "contract check in the model's executable realisation).",
+        "technique": "SYNTACTIC TIE: Coq proof (linear algebra over R) about a model + source-to-Gallina translation of the instantiated "
+                     "C++ (clang AST, symbolic execution of fixed-size Eigen code, loops as folds, SVD as oracle) with dictionary-generic "
+                     "tie lemmas + extracted-model correspondence run + independent Kabsch/Umeyama oracle",
     },
 }
